@@ -608,9 +608,10 @@ end Stats
 
 `AllCache` = a cache object of any provided kind: FIFO | StatsRecorder(FIFO) | LRU | Random | StatsRecorder(LRU) |
 StatsRecorder(Random).  The full statement (`all_kinds_transparent_full`: any sequence of SetCache of new objects of any
-of these kinds, nil, or objects used earlier) is NOT proved: `FInv` is stated for tables of FIFOs only and the contract
-invariant `Inv` is false as soon as a FIFO has been used (a detached FIFO may reference the current block).  What is
-proved: (1) histories that mix bare FIFOs and StatsRecorder(FIFO)s freely (`fifo_family_transparent`); (2) histories
+of these kinds, nil, or objects used earlier) is FALSE on the repaired tree — `all_kinds_transparent_full_false`, history
+`crossDefectHist`, reproduced on the Go code (finding C03 round 5): `bg.lent` remembers only the LAST block on loan; a block
+that a detached FIFO still indexes can be `Put` into an LRU, come back from the LRU's `Get` as the reader's own while
+`bg.lent` points elsewhere, and be recycled.  What is proved: (1) histories that mix bare FIFOs and StatsRecorder(FIFO)s freely (`fifo_family_transparent`); (2) histories
 over `AllCache` whose objects all come from the FIFO family or all from the contract family
 (`all_kinds_transparent_partial`). -/
 
@@ -658,7 +659,7 @@ theorem all_setCache_ok (n : Int) (hn : 1 ≤ n) (hints : List Int) :
   ⟨⟨LCache.wf_new hn, rfl⟩, ⟨LCache.wf_new hn, rfl⟩, ⟨LCache.wf_new hn, rfl⟩, ⟨RCache.wf_new hn, rfl⟩,
     ⟨LCache.wf_new hn, rfl⟩, ⟨RCache.wf_new hn, rfl⟩⟩
 
-/-- THE FULL STATEMENT (open): SetCache may install a new object of any kind, nil, or any object used earlier -/
+/-- THE FULL STATEMENT (FALSE, see `all_kinds_transparent_full_false`): SetCache may install a new object of any kind, nil, or any object used earlier -/
 def all_kinds_transparent_full : Prop :=
   ∀ (f : File), FileOK f → ∀ (ops : List (Op AllCache)), (∀ op ∈ ops, OpOK allOps allWF op) →
     ∀ outs, outputs Cfg.repaired allOps f ops = .ok outs →
@@ -756,6 +757,43 @@ example : (∀ op ∈ crossHist, OpOK allOps allWF op) ∧ ¬ OneFamily crossHis
       cases ha
     · obtain ⟨a, ha⟩ := h (allFIFO 4) [] (by simp [crossHist])
       cases ha
+
+/-- FIFO F(4); Read 8; Seek b0 (hit: block X of member 0 stays in F, `lent = X`); SetCache(LRU L(1)); Seek b2 (X is Put into
+L: now F and L index X); Read 1; SetCache(F); Seek b1 (hit, `lent` = the block of member 1); SetCache(L); Seek b0 (L's Get
+hands X over and forgets it, `lent` is not X, F — detached — still indexes X); SetCache(nil); Seek b2 (X is recycled for
+"CCCC"); SetCache(F); Seek b0 (F returns X); Read 2. -/
+def crossDefectHist : List (Op AllCache) :=
+  [.setCache (some (allFIFO 4)) [], .read 8, .seek 0 0, .setCache (some (allOther (anyLRU 1))) [], .seek 70 0, .read 1,
+   .reattach 0 [], .seek 35 0, .reattach 0 [], .seek 0 0, .setCache none [], .seek 70 0, .reattach 0 [], .seek 0 0,
+   .read 2]
+
+/-- **finding (round 5)**: on the repaired tree the last Read of `crossDefectHist` returns "CC"; uncached: "AA" -/
+theorem cross_kind_witness :
+    (bytesOf (outputs Cfg.repaired allOps file3 crossDefectHist)).getLast? = some ([67, 67], .ok) ∧
+    (bytesOf (outputs Cfg.repaired allOps file3 (crossDefectHist.map Op.uncached))).getLast? = some ([65, 65], .ok) := by
+  decide
+
+theorem crossDefectHist_ok : ∀ op ∈ crossDefectHist, OpOK allOps allWF op := by
+  intro op hop
+  simp only [crossDefectHist, List.mem_cons, List.mem_nil_iff, or_false] at hop
+  rcases hop with h1 | h1 | h1 | h1 | h1 | h1 | h1 | h1 | h1 | h1 | h1 | h1 | h1 | h1 | h1 <;> subst h1 <;>
+    first | exact (all_setCache_ok 4 (by decide) []).1 | exact (all_setCache_ok 1 (by decide) []).2.2.1 | trivial
+
+/-- the full statement over all kinds is false for the repaired tree: mixing FIFO and LRU objects is NOT transparent -/
+theorem all_kinds_transparent_full_false : ¬ all_kinds_transparent_full := by
+  intro h
+  cases hc : outputs Cfg.repaired allOps file3 crossDefectHist with
+  | error e =>
+    have := cross_kind_witness.1
+    rw [hc] at this
+    simp [bytesOf] at this
+  | ok outs =>
+    have h2 := h file3 file3_ok crossDefectHist crossDefectHist_ok outs hc
+    have h3 := cross_kind_witness
+    rw [h2] at h3
+    rw [hc] at h3
+    rw [h3.1] at h3
+    exact absurd h3.2 (by decide)
 
 end AllKinds
 
